@@ -1,11 +1,100 @@
-// Generates the `#[path]` includes of strum_macros' helper and macro modules from REPO_ROOT
-// (default /repo), so the in-process harness always compiles the current working tree.
+// Generates (a) the `#[path]` includes of strum_macros' helper and macro modules from REPO_ROOT (default /repo),
+// so the in-process harness always compiles the current working tree, and (b) the dispatch from a derive's
+// name to the expression its entry point in strum_macros/src/lib.rs evaluates, read from that file itself: an
+// internal function or module may be renamed, or the entry points restructured, without blinding this engine.
 use std::io::Write;
+
+const FALLBACK: &[(&str, &str)] = &[
+    ("EnumString", "macros::from_string::from_string_inner(ast)"),
+    ("AsRefStr", "macros::as_ref_str::as_ref_str_inner(ast)"),
+    ("VariantNames", "macros::enum_variant_names::enum_variant_names_inner(ast)"),
+    ("VariantArray", "macros::enum_variant_array::static_variants_array_inner(ast)"),
+    ("AsStaticStr", "macros::as_ref_str::as_static_str_inner(ast, &macros::as_ref_str::GenerateTraitVariant::AsStaticStr)"),
+    ("IntoStaticStr", "macros::as_ref_str::as_static_str_inner(ast, &macros::as_ref_str::GenerateTraitVariant::From)"),
+    ("ToString", "macros::to_string::to_string_inner(ast)"),
+    ("Display", "macros::display::display_inner(ast)"),
+    ("EnumIter", "macros::enum_iter::enum_iter_inner(ast)"),
+    ("EnumIs", "macros::enum_is::enum_is_inner(ast)"),
+    ("EnumTryAs", "macros::enum_try_as::enum_try_as_inner(ast)"),
+    ("EnumTable", "macros::enum_table::enum_table_inner(ast)"),
+    ("FromRepr", "macros::from_repr::from_repr_inner(ast)"),
+    ("EnumMessage", "macros::enum_messages::enum_message_inner(ast)"),
+    ("EnumProperty", "macros::enum_properties::enum_properties_inner(ast)"),
+    ("EnumDiscriminants", "macros::enum_discriminants::enum_discriminants_inner(ast)"),
+    ("EnumCount", "macros::enum_count::enum_count_inner(ast)"),
+];
+
+/// the expression `macros::path::to::f(args)` (or a bare `macros::path::to::f`) that follows `from` in `text`
+fn entry_expr(text: &str) -> Option<String> {
+    let start = text.find("macros::")?;
+    let b = text.as_bytes();
+    let mut i = start;
+    while i < b.len() && (b[i].is_ascii_alphanumeric() || b[i] == b'_' || b[i] == b':') {
+        i += 1;
+    }
+    let path = text[start..i].trim_end_matches(':').to_string();
+    let mut j = i;
+    while j < b.len() && b[j].is_ascii_whitespace() {
+        j += 1;
+    }
+    if j < b.len() && b[j] == b'(' {
+        let mut depth = 0i32;
+        let mut k = j;
+        while k < b.len() {
+            match b[k] {
+                b'(' => depth += 1,
+                b')' => {
+                    depth -= 1;
+                    if depth == 0 {
+                        break;
+                    }
+                }
+                _ => {}
+            }
+            k += 1;
+        }
+        if k >= b.len() {
+            return None;
+        }
+        let args: String = text[j + 1..k].split_whitespace().collect::<Vec<_>>().join(" ");
+        let args = args.replace("&ast", "ast").replace("& ast", "ast");
+        let args = args.trim().trim_end_matches(',').trim().to_string();
+        if !(args == "ast" || args.starts_with("ast,")) {
+            return None;
+        }
+        Some(format!("{}({})", path, args))
+    } else {
+        Some(format!("{}(ast)", path))
+    }
+}
+
 fn main() {
     let repo = std::env::var("REPO_ROOT").unwrap_or_else(|_| "/repo".to_string());
     println!("cargo:rerun-if-env-changed=REPO_ROOT");
-    let out = std::path::PathBuf::from(std::env::var("OUT_DIR").unwrap()).join("strum_src.rs");
-    let mut f = std::fs::File::create(&out).unwrap();
+    let lib_rs = format!("{}/strum_macros/src/lib.rs", repo);
+    println!("cargo:rerun-if-changed={}", lib_rs);
+    let out_dir = std::path::PathBuf::from(std::env::var("OUT_DIR").unwrap());
+    let mut f = std::fs::File::create(out_dir.join("strum_src.rs")).unwrap();
     writeln!(f, "#[path = \"{}/strum_macros/src/helpers/mod.rs\"]\npub mod helpers;", repo).unwrap();
     writeln!(f, "#[path = \"{}/strum_macros/src/macros/mod.rs\"]\npub mod macros;", repo).unwrap();
+
+    let text = std::fs::read_to_string(&lib_rs).unwrap_or_default();
+    let mut found: Vec<(String, String)> = Vec::new();
+    let chunks: Vec<&str> = text.split("#[proc_macro_derive(").collect();
+    for c in chunks.iter().skip(1) {
+        let name: String = c.chars().take_while(|ch| ch.is_ascii_alphanumeric() || *ch == '_').collect();
+        if let Some(e) = entry_expr(c) {
+            found.push((name, e));
+        }
+    }
+    let mut d = std::fs::File::create(out_dir.join("dispatch.rs")).unwrap();
+    writeln!(d, "fn call(derive: &str, ast: &DeriveInput) -> syn::Result<TokenStream> {{\n    match derive {{").unwrap();
+    let mut how = Vec::new();
+    for (name, fb) in FALLBACK {
+        let e = found.iter().find(|(n, _)| n == name).map(|(_, e)| e.clone());
+        how.push(format!("{}={}", name, if e.is_some() { "lib.rs" } else { "built-in" }));
+        writeln!(d, "        {:?} => {},", name, e.unwrap_or_else(|| fb.to_string())).unwrap();
+    }
+    writeln!(d, "        other => panic!(\"unknown derive {{}}\", other),\n    }}\n}}").unwrap();
+    writeln!(d, "pub const DISPATCH_SOURCE: &str = {:?};", how.join(" ")).unwrap();
 }
